@@ -272,6 +272,7 @@ package scheduler
 //@   at select 1 pre assert [C05,C03,C06,C19] dispatch-arm-armed-iff-a-job-is-ready-and-a-worker-is-free: (armch1 == s.readyc) == (listlen(ready) > 0 && ongoing < s.concurrency) && (armch1 == nil || armch1 == s.readyc)
 //@   at select 1 pre assert [C05,C09] enqueue-arm-armed-until-the-enqueue-channel-is-closed: (armch2 == s.enqueuec) == !closedSeen && (armch2 == nil || armch2 == s.enqueuec)
 //@   at select 1 pre assert [C05,C06] result-arm-always-armed: armch3 == s.donec
+//@   at select 1 pre assert [C19] report-arm-armed-exactly-when-an-emitter-is-configured: (armch4 != nil) == (emitter != nil)
 //@   at select 1 arm 1 assert [C05,C03] L4-dispatch-arm-is-readyc: ch == s.readyc
 //@   at select 1 arm 1 assert [C03,C06] dispatch-gated-by-free-worker: ongoing < s.concurrency
 //@   at select 1 arm 1 assert [C01] guarantee-dispatch-sends-non-nil-front: sent != nil && listlen(ready) > 0 && dataof(listat(ready, listlo(ready))) == sent
